@@ -13,11 +13,11 @@ CHECKS = {
          "For each generated (input, encoding, handler set incl. offset-keyed mutating scripts) the single-write run is compared with every 1-cut schedule (inputs <= 300 bytes), every 2-cut schedule (<= 40 bytes), byte-wise and random schedules and rewrite_str: output bytes and the normalised event sequence must coincide; text-node protocol (exactly one last chunk) checked on every run. Exhaustive over cut positions for the documents generated, sampling over documents.",
          "Relational: a defect that is identical under all schedules is invisible here (covered by C03/C04/C05/C07). Locations are excluded (C14).", "§5 C02"),
  "C06": ("exploration", "runtime monitor: relational oracle between handler configurations H and H+O on the same input and schedule; hook events count scanner<->lexer switches",
-         "Same input and schedule under H and under H plus extra observers (registered before or after): events delivered to H's handlers and sink bytes must be identical. Hook events prove the two runs really took different scan/lex paths.",
+         "Same input and schedule under H (observers; on a third of the structured documents H also rewrites: content removal, insertions, renaming) and under H plus extra observers (registered before or after): events delivered to H's handlers and sink bytes must be identical. Hook events prove the two runs really took different scan/lex paths.",
          "One accepted artefact, recognised exactly: strict-mode Ambiguity-vs-Ok when the input ends inside the offending tag (DESIGN.md §6).", "§5 C06"),
  "C09": ("exploration", "runtime monitor: relational oracle (fresh rewriter given the same prefix) + absolute bounds on held bytes from ground-truth token spans",
          "After every write of a schedule (every prefix for inputs <= 300 bytes) bytes_out is compared with a fresh rewriter that got the same prefix in one write; with no handlers the held bytes must be an unfinished tag through its name or <= 16 bytes of look-ahead; on generated documents with known token spans nothing is held at construct boundaries and never more than the unfinished token.",
-         "Absolute 'through its name' bound asserted in the HTML namespace only (DESIGN.md §6).", "§5 C09"),
+         "Absolute 'through its name' bound asserted in the HTML namespace and, on generated documents with ground-truth namespaces, for svg / math start tags whose lexeme the tree-builder simulator does not need (DESIGN.md §6).", "§5 C09"),
  "C10": ("fault_enumeration", "runtime monitor: exhaustive memory-limit sweep with accounting hook (usage <= M), pending-bytes bound, monotonicity / determinism / additivity oracles; counting global allocator as heap-retention monitor",
          "For growth-shaped inputs x handler sets x schedules x preallocation sizes the limit M is swept over every value from 0 beyond the first success (geometric for large inputs): every run is checked for accounted usage <= M (hook) and pending <= M after each successful call and for MemoryLimitExceeded as the only failure; additivity (the smallest sufficient limit of open elements plus an unfinished buffered token is at least the sum of the parts: one budget) and heap retention (counting allocator: after streams of complete tokens with bounded depth the live heap may grow from n to 4n items by at most M unless a write fails) are checked on dedicated cases; every sweep for monotone success with identical output and for a minimum charge per open element.",
          "Only the accounting limit is exercised; real allocation failure aborts and cannot be injected. prealloc > limit only in the release flavour. The retention monitor is not a general heap bound (owned names etc. are deliberately unaccounted by lol-html).", "§5 C10"),
